@@ -51,8 +51,8 @@ Fixpoint check_pairs (n : nat) (p : list str) (s : st) : st :=
   match p with
   | k :: _ :: r =>
       let s1 := match k with [] => err "in -a option: key is empty" s | _ => s end in
-      let s2 := if existsb (fun c => existsb (N.eqb c) [34; 39; 62; 47; 61; 60; 38]) k
-                   || (match k with c :: _ => existsb (N.eqb c) [48; 49; 50; 51; 52; 53; 54; 55; 56; 57; 45; 46] | [] => false end)
+      let s2 := if contains_any key_bad_chars k
+                   || (match k with c :: _ => existsb (N.eqb c) key_bad_first | [] => false end)
                 then err "in -a option: key contains invalid characters" s1 else s1 in
       let s3 := fold_left (fun a c => if is_space c then err "in -a option: key contains space" a else a) k s2 in
       check_pairs (S n) r s3
